@@ -51,7 +51,8 @@ func (bc *bufferedConn) Write(b []byte) (int, error) {
 }
 
 func (bc *bufferedConn) writeProcess() {
-	pktBuf := make([]byte, receiveMTU)
+	// A queued frame is the 2-byte length header plus a payload of up to receiveMTU bytes.
+	pktBuf := make([]byte, streamingPacketHeaderLen+receiveMTU)
 	for atomic.LoadInt32(&bc.closed) == 0 {
 		n, err := bc.buf.Read(pktBuf)
 		if errors.Is(err, io.EOF) {
